@@ -4,6 +4,7 @@ import (
 	"errors"
 	"path"
 	"path/filepath"
+	"strings"
 
 	"github.com/akalin/gopar/par2cmdline"
 	"github.com/akalin/gopar/rsec16"
@@ -74,6 +75,23 @@ func checkExtension(parPath string) error {
 	return nil
 }
 
+// isParityFilePath returns whether filePath is the index file
+// absParPath itself, or a file next to it that LoadParityData would
+// pick up as a parity file of the same set: one whose name is the
+// index file's name with something inserted before the extension.
+// Both paths must be absolute and clean.
+func isParityFilePath(absParPath, filePath string) bool {
+	if filePath == absParPath {
+		return true
+	}
+	ext := path.Ext(absParPath)
+	prefix := absParPath[:len(absParPath)-len(ext)] + "."
+	return len(filePath) >= len(prefix)+len(ext) &&
+		strings.HasPrefix(filePath, prefix) &&
+		strings.HasSuffix(filePath, ext) &&
+		!strings.ContainsRune(filePath[len(prefix):], filepath.Separator)
+}
+
 func create(fileIO fileIO, parPath string, filePaths []string, options CreateOptions) error {
 	err := checkExtension(parPath)
 	if err != nil {
@@ -114,6 +132,12 @@ func create(fileIO fileIO, parPath string, filePaths []string, options CreateOpt
 		absPath, err := filepath.Abs(path)
 		if err != nil {
 			return err
+		}
+		// Writing the parity files must not clobber a data
+		// file, and a data file must not be mistaken for a
+		// parity file of its own set later on.
+		if isParityFilePath(absParPath, absPath) {
+			return errors.New("data file " + path + " is the index file or would be taken for a parity file of this set")
 		}
 		absFilePaths[i] = absPath
 	}
